@@ -129,11 +129,12 @@ func (m *CPU) Run(app risc.Application) (int, error) {
 				}
 				return 0, resp.err
 			}
-			if resp.flush {
+			if resp.flush && (!flush || resp.sequenceID < sequenceID) {
+				// Two mispredictions found in one cycle: the older instruction decides
 				sequenceID = resp.sequenceID
+				pc = resp.pc
 			}
 			flush = flush || resp.flush
-			pc = max(pc, resp.pc)
 			ret = ret || resp.isReturn
 		}
 
